@@ -176,7 +176,7 @@ Qed.
 
 Lemma wf_chdir s st :
   wf s -> is_dir (k_ino s) (top st) = true ->
-  wf (set_cur s (mkProc (fds s) st (p_umask (k_cur s)) (p_sig (k_cur s)))).
+  wf (set_cur s (mkProc (fds s) st (p_umask (k_cur s)) (p_sig (k_cur s)) (p_limit (k_cur s)) (p_id (k_cur s)))).
 Proof.
   intros Hw Hd. apply wf_set_cur; auto. split; auto. apply (wf_fds s Hw).
 Qed.
@@ -197,9 +197,9 @@ Proof.
     apply wf_install; auto. cbn. eapply nth_error_lt; eauto.
 Qed.
 
-Lemma wf_open s p a f mode : wf s -> wf (fst (k_open s p a f mode)).
+Lemma wf_open_inner s p a f mode : wf s -> wf (fst (k_open_inner s p a f mode)).
 Proof.
-  intros Hw. unfold k_open.
+  intros Hw. unfold k_open_inner.
   destruct (negb (flags_ok a f) || negb (nonempty p)); auto.
   assert (Hwhole : wf (fst match resolve (k_ino s) (p_cwd (k_cur s)) p with
                            | WOk st => open_existing s (top st) a f
@@ -221,11 +221,19 @@ Proof.
     rewrite length_set_nth, app_length. cbn. lia.
 Qed.
 
+Lemma wf_open s p a f mode : wf s -> wf (fst (k_open s p a f mode)).
+Proof.
+  intros Hw. unfold k_open. destruct (can_alloc s 0); [apply wf_open_inner; auto|].
+  destruct (snd (k_open_inner s p a f mode)); auto.
+Qed.
+
 Lemma wf_pipe s : wf s -> wf (fst (k_pipe s)).
 Proof.
   intros Hw. unfold k_pipe.
   assert (Hw0 : wf (set_ino s (k_ino s ++ [IFifo []]))) by (apply wf_append_inode; cbn; auto).
+  destruct (negb (can_alloc s 0)); auto.
   destruct (install (set_ino s _) _ _) as [s1 r] eqn:E1.
+  destruct (negb (can_alloc s1 0)); auto.
   destruct (install s1 _ _) as [s2 w] eqn:E2. cbn [fst].
   rewrite (install_eq _ _ _ _ _ E2). apply wf_install.
   - rewrite (install_eq _ _ _ _ _ E1). apply wf_install; auto.
@@ -257,18 +265,80 @@ Qed.
 Lemma get_ofd_ofd s fd id o : get_ofd s fd = Some (id, o) -> nth_error (k_ofd s) id = Some o.
 Proof. intros H. destruct (get_ofd_inv _ _ _ _ H) as (e & _ & _ & Hn). exact Hn. Qed.
 
-Lemma step_preserves_wf_l s o : wf s -> wf (fst (step s o)).
+Lemma with_sig_ok n ino p g : proc_ok n ino p -> proc_ok n ino (with_sig p g).
+Proof. intros (A & B). split; auto. Qed.
+
+Lemma signal_ancestors_ok n ino : forall l pg sig l',
+  Forall (proc_ok n ino) l -> signal_ancestors l pg sig = Some l' -> Forall (proc_ok n ino) l'.
 Proof.
-  intros Hw. destruct o; cbn [step].
+  induction l as [|p l IH]; intros pg sig l' Hf H; cbn in H.
+  - inversion H; constructor.
+  - inversion Hf; subst.
+    destruct (signal_ancestors l pg sig) as [l''|] eqn:E; try discriminate.
+    destruct (N.eqb _ pg).
+    + destruct (generate _ sig); try discriminate. inversion H; subst.
+      constructor; [apply with_sig_ok; auto | eapply IH; eauto].
+    + inversion H; subst. constructor; auto. eapply IH; eauto.
+Qed.
+
+(* replacing the processes (same tables) keeps the state well formed *)
+Lemma wf_procs s cur' susp' sk' :
+  wf s -> proc_ok (length (k_ofd s)) (k_ino s) cur' ->
+  Forall (proc_ok (length (k_ofd s)) (k_ino s)) susp' ->
+  wf (mkK (k_ino s) (k_ofd s) cur' susp' sk').
+Proof.
+  intros (H1 & H2 & H3 & H4) Hc Hs. unfold wf, all_procs. cbn [k_ino k_ofd k_cur k_susp].
+  repeat split; auto.
+Qed.
+
+Lemma wf_susp s : wf s -> Forall (proc_ok (length (k_ofd s)) (k_ino s)) (k_susp s).
+Proof. intros (_ & _ & H3 & _). unfold all_procs in H3. inversion H3; auto. Qed.
+
+Lemma wf_signal_self s susp' sig :
+  wf s -> Forall (proc_ok (length (k_ofd s)) (k_ino s)) susp' ->
+  wf (fst (signal_self s susp' sig)).
+Proof.
+  intros Hw Hs. unfold signal_self.
+  destruct (generate _ sig); cbn [fst]; auto.
+  - apply wf_procs; auto. apply with_sig_ok, wf_cur; auto.
+  - destruct (k_susp s); cbn [fst]; auto. apply wf_procs; auto. apply wf_cur; auto.
+  - destruct (k_susp s); cbn [fst]; auto. apply wf_procs; auto. apply wf_cur; auto.
+Qed.
+
+Lemma wf_kill s tg sig : wf s -> wf (fst (k_kill s tg sig)).
+Proof.
+  intros Hw. unfold k_kill. destruct (negb (N.ltb sig nsig)); auto.
+  destruct tg.
+  - apply wf_signal_self; auto. apply wf_susp; auto.
+  - pose proof (wf_susp s Hw) as Hs.
+    destruct (k_susp s) as [|p rest]; auto.
+    destruct (generate (p_sig p) sig); cbn [fst]; auto.
+    inversion Hs; subst.
+    apply wf_procs; auto; try (apply wf_cur; auto); try (constructor; auto; apply with_sig_ok; auto).
+  - destruct (signal_ancestors _ _ _) eqn:E; auto.
+    apply wf_signal_self; auto. eapply signal_ancestors_ok; [apply wf_susp; auto | eauto].
+  - destruct (signal_ancestors _ _ _) eqn:E; auto.
+    apply wf_signal_self; auto. eapply signal_ancestors_ok; [apply wf_susp; auto | eauto].
+  - destruct (N.eqb _ _); auto.
+    destruct (signal_ancestors _ _ _) eqn:E; auto.
+    apply wf_signal_self; auto. eapply signal_ancestors_ok; [apply wf_susp; auto | eauto].
+Qed.
+
+Lemma step_live_preserves_wf s o : wf s -> wf (fst (step_live s o)).
+Proof.
+  intros Hw. destruct o; cbn [step_live].
   - apply wf_open; auto.
   - unfold k_close. cbn [fst]. apply wf_set_fds; auto. apply fds_ok_del, wf_fds; auto.
   - unfold k_dup. destruct (N.ltb fd_limit min); auto.
-    destruct (fd_get (fds s) fd) as [e|] eqn:G; auto. cbn [fst].
+    destruct (fd_get (fds s) fd) as [e|] eqn:G; auto.
+    destruct (N.leb (p_limit (k_cur s)) min); auto.
+    destruct (negb (can_alloc s min)); auto. cbn [fst].
     apply wf_set_fds; auto. apply fds_ok_put; [apply wf_fds; auto|]. cbn.
     apply (wf_fds s Hw fd e). apply fd_get_In; auto.
   - unfold k_dup2. destruct (N.ltb fd_limit to); auto.
     destruct (fd_get (fds s) fd) as [e|] eqn:G; auto.
-    destruct (N.eqb fd to); auto. cbn [fst].
+    destruct (N.eqb fd to); auto.
+    destruct (N.leb (p_limit (k_cur s)) to); auto. cbn [fst].
     apply wf_set_fds; auto. apply fds_ok_put; [apply wf_fds; auto|]. cbn.
     apply (wf_fds s Hw fd e). apply fd_get_In; auto.
   - unfold k_read. destruct (N.eqb n 0); auto.
@@ -298,13 +368,19 @@ Proof.
     destruct (is_dir (k_ino s) (top st)) eqn:Ed; auto. cbn [fst]. apply wf_chdir; auto.
   - auto.
   - apply wf_pipe; auto.
-  - unfold k_readdir. destruct (resolve _ _ _); auto. destruct (nth_error _ _) as [[]|]; auto.
+  - unfold k_readdir. destruct (resolve _ _ _); auto; [destruct (nth_error _ _) as [[]|]; auto|];
+      destruct (can_alloc s 0); auto.
   - unfold k_getfd. destruct (fd_get _ _); auto.
   - unfold k_setfd. destruct (fd_get (fds s) fd) as [e|] eqn:G; auto. cbn [fst].
     apply wf_set_fds; auto. apply fds_ok_put; [apply wf_fds; auto|]. cbn.
     apply (wf_fds s Hw fd e). apply fd_get_In; auto.
   - unfold k_access. destruct (get_ofd s fd) as [[id o]|]; auto.
     destruct (o_rd o), (o_wr o); auto.
+  - unfold k_setrlimit. destruct (N.eqb n 0 || N.ltb default_limit n); auto. cbn [fst].
+    apply wf_set_cur; auto. destruct (wf_cur s Hw) as (Ha & Hb). split; auto.
+  - unfold k_setpgid0. cbn [fst]. apply wf_set_cur; auto.
+    destruct (wf_cur s Hw) as (Ha & Hb). split; auto.
+  - apply wf_kill; auto.
   - unfold k_sigaction. destruct (negb (N.ltb sig nsig)); auto. cbn [fst]. apply wf_set_sig; auto.
   - unfold k_getsigaction. destruct (negb (N.ltb sig nsig)); auto.
   - unfold k_raise. destruct (negb (N.ltb sig nsig)); auto.
@@ -316,6 +392,18 @@ Proof.
     destruct (deliver_pending _ _); auto. cbn [fst]. apply wf_set_sig; auto.
   - apply wf_fork; auto.
   - apply wf_exit; auto.
+Qed.
+
+Lemma wf_reskip s x : wf s -> wf (mkK (k_ino s) (k_ofd s) (k_cur s) (k_susp s) x).
+Proof. intros Hw. apply (wf_procs s (k_cur s) (k_susp s)); auto; [apply wf_cur | apply wf_susp]; auto. Qed.
+
+Lemma step_preserves_wf_l s o : wf s -> wf (fst (step s o)).
+Proof.
+  intros Hw. unfold step. destruct (k_skip s) as [[sig d]|]; [|apply step_live_preserves_wf; auto].
+  destruct o; cbn [fst]; auto using wf_reskip.
+  destruct d; cbn [fst]; auto using wf_reskip.
+  pose proof (wf_susp s Hw) as Hs. destruct (k_susp s) as [|p rest]; auto. cbn [fst].
+  inversion Hs; subst. apply (wf_procs s p rest); auto.
 Qed.
 
 Lemma run_preserves_wf_l : forall ops s, wf s -> wf (fst (run s ops)).
@@ -412,14 +500,17 @@ Proof. apply run_preserves_wf_l, wf_init_l. Qed.
 
 Lemma dup_lowest_free_l s fd m cx s' fd' :
   k_dup s fd m cx = (s', RFd fd') ->
-  (m <= fd')%N /\ fd_mem (fds s) fd' = false /\
+  (m <= fd' < p_limit (k_cur s))%N /\ fd_mem (fds s) fd' = false /\
   (forall k, (m <= k < fd')%N -> fd_mem (fds s) k = true) /\
   k_getfd s' fd' = (s', RFlag cx).
 Proof.
   unfold k_dup. destruct (N.ltb fd_limit m); try discriminate.
   destruct (fd_get (fds s) fd) as [e|]; try discriminate.
+  destruct (N.leb (p_limit (k_cur s)) m); try discriminate.
+  destruct (can_alloc s m) eqn:Hc; try discriminate. cbn [negb].
   intros H; inversion H; subst s' fd'; clear H.
   destruct (lowest_free_spec_l (fds s) m) as (A & B & C).
+  unfold can_alloc in Hc. apply N.ltb_lt in Hc.
   repeat split; auto.
   unfold k_getfd, fds. cbn [set_fds set_cur k_cur p_fds]. rewrite fd_get_put_eq. reflexivity.
 Qed.
@@ -430,6 +521,7 @@ Proof.
   unfold k_dup2. destruct (N.ltb fd_limit to); try discriminate.
   destruct (fd_get (fds s) fd) as [e|]; try discriminate.
   destruct (N.eqb fd to) eqn:E. { apply N.eqb_eq in E. congruence. }
+  destruct (N.leb (p_limit (k_cur s)) to); try discriminate.
   intros H _; inversion H; subst s'; clear H.
   unfold k_getfd, fds. cbn [set_fds set_cur k_cur p_fds]. rewrite fd_get_put_eq. reflexivity.
 Qed.
@@ -470,12 +562,12 @@ Qed.
 
 (* an ignored signal changes nothing *)
 Lemma raise_ignored_l s sig :
-  (sig < nsig)%N -> get_disp (g_disp (p_sig (k_cur s))) sig = DIgnore ->
+  (sig < nsig)%N -> mem_n sig (g_mask (p_sig (k_cur s))) = false ->
+  get_disp (g_disp (p_sig (k_cur s))) sig = DIgnore ->
   snd (k_raise s sig) = RUnit /\ p_sig (k_cur (fst (k_raise s sig))) = p_sig (k_cur s).
 Proof.
-  intros Hs Hd. unfold k_raise, deliver.
-  assert (E : negb (N.ltb sig nsig) = false) by lia. rewrite E, Hd.
-  destruct (mem_n sig _); cbn; auto.
+  intros Hs Hm Hd. unfold k_raise, deliver.
+  assert (E : negb (N.ltb sig nsig) = false) by lia. rewrite E, Hd, Hm. cbn. auto.
 Qed.
 
 (* a blocked signal stays pending and is not recorded until it is unblocked *)
@@ -498,4 +590,83 @@ Lemma ignore_discards_pending_l s sig :
 Proof.
   intros Hs. unfold k_sigaction.
   assert (E : negb (N.ltb sig nsig) = false) by lia. rewrite E. cbn. apply mem_remove_n.
+Qed.
+
+(* ---- RLIMIT_NOFILE ---------------------------------------------------------------------------------- *)
+
+(* a pipe that cannot get both descriptors gets none: the state is unchanged *)
+Lemma pipe_emfile_no_leak_l s e : snd (k_pipe s) = RErr e -> fst (k_pipe s) = s.
+Proof.
+  unfold k_pipe. destruct (negb (can_alloc s 0)); auto.
+  destruct (install (set_ino s _) _ _) as [s1 r].
+  destruct (negb (can_alloc s1 0)); auto.
+  destruct (install s1 _ _) as [s2 w]. cbn. discriminate.
+Qed.
+
+(* no allocation hands out a descriptor at or above the limit *)
+Lemma pipe_below_limit_l s s' r w :
+  k_pipe s = (s', RPipe r w) -> (r < p_limit (k_cur s))%N /\ (w < p_limit (k_cur s))%N.
+Proof.
+  unfold k_pipe. destruct (can_alloc s 0) eqn:C0; cbn [negb]; try discriminate.
+  unfold install at 1. cbn [fst snd].
+  match goal with |- context [can_alloc ?x 0] => destruct (can_alloc x 0) eqn:C1 end;
+    cbn [negb]; try discriminate.
+  unfold install. intros H; inversion H; subst; clear H.
+  unfold can_alloc in *. apply N.ltb_lt in C0, C1. cbn in C1. split; auto.
+Qed.
+
+Lemma dup_emfile_l s fd m cx e :
+  fd_get (fds s) fd = Some e -> (m <= fd_limit)%N -> (m < p_limit (k_cur s))%N ->
+  can_alloc s m = false -> k_dup s fd m cx = (s, RErr EMFILE).
+Proof.
+  intros G Hm Hl Hc. unfold k_dup.
+  assert (E1 : N.ltb fd_limit m = false) by lia. rewrite E1, G.
+  assert (E2 : N.leb (p_limit (k_cur s)) m = false) by lia. rewrite E2, Hc. reflexivity.
+Qed.
+
+(* ---- process groups ------------------------------------------------------------------------------------ *)
+
+(* a signal for the whole group that the parent ignores: the child that has the
+   default action dies, the parent is untouched and learns the signal at the
+   child's exit *)
+Lemma group_kill_child_dies_l s parent rest sig :
+  k_skip s = None -> k_susp s = parent :: rest ->
+  (sig < nsig)%N -> sig <> sigtstp ->
+  mem_n sig (g_mask (p_sig (k_cur s))) = false ->
+  get_disp (g_disp (p_sig (k_cur s))) sig = DDefault ->
+  signal_ancestors (k_susp s) (snd (p_id (k_cur s))) sig = Some (k_susp s) ->
+  let s1 := fst (k_kill s TGroup0 sig) in
+  snd (k_kill s TGroup0 sig) = RSkip /\
+  (forall o, o <> OFork -> o <> OExit -> step s1 o = (s1, RSkip)) /\
+  fst (step s1 OExit) = mkK (k_ino s) (k_ofd s) parent rest None /\
+  snd (step s1 OExit) = RChild (CSignaled sig).
+Proof.
+  intros Hn Hsusp Hs Hst Hm Hd Ha. unfold k_kill.
+  assert (E : negb (N.ltb sig nsig) = false) by lia. rewrite E, Ha.
+  unfold signal_self, generate. rewrite Hd, Hm.
+  assert (E2 : N.eqb sig sigtstp = false) by (apply N.eqb_neq; auto). rewrite E2, Hsusp.
+  cbn [fst snd]. split; auto. split; [|split].
+  - intros o Hf He. unfold step. cbn [k_skip]. destruct o; try congruence; reflexivity.
+  - reflexivity.
+  - reflexivity.
+Qed.
+
+(* an ancestor in the group that ignores the signal is not changed by it *)
+Lemma signal_ancestors_ignored_l p sig pg :
+  get_disp (g_disp (p_sig p)) sig = DIgnore -> mem_n sig (g_mask (p_sig p)) = false ->
+  signal_ancestors [p] pg sig = Some [p].
+Proof.
+  intros Hd Hm. cbn. destruct (N.eqb _ pg); auto.
+  unfold generate. rewrite Hd, Hm. unfold with_sig. destruct p; reflexivity.
+Qed.
+
+(* only the leader of a group can name it by its own ID *)
+Lemma kill_neg_pid_not_leader_l s sig :
+  (sig < nsig)%N -> fst (p_id (k_cur s)) <> snd (p_id (k_cur s)) ->
+  k_kill s TNegPid sig = (s, RErr ESRCH).
+Proof.
+  intros Hs Hne. unfold k_kill.
+  assert (E : negb (N.ltb sig nsig) = false) by lia. rewrite E.
+  assert (E2 : N.eqb (fst (p_id (k_cur s))) (snd (p_id (k_cur s))) = false) by (apply N.eqb_neq; auto).
+  rewrite E2. reflexivity.
 Qed.
